@@ -119,10 +119,10 @@ PROPS = {
         ],
     },
     "C09": {
-        "units": ["cer", "cli"], "kani_complete": [], "kani_bounded_quick": [], "kani_bounded_thorough": [],
+        "units": ["cer", "cli"], "kani_complete": [], "kani_bounded_quick": ["prf_salt"], "kani_bounded_thorough": [],
         "design_ref": "DESIGN.md section 5 / C09",
         "not_covered": [
-            "make_salt (iterator chain): the salt prefix \"WebAuthn PRF\" || 0x00 is an ASSUMED contract, a wrong prefix is not detected",
+            "make_salt (iterator chain): the salt prefix is an assumed contract in the Verus unit; it is checked by the bounded Kani family K-PRF-SALT (inputs of 0, 1, 5 bytes) on the real source file",
             "get_ctap_extension / make_ctap_extension (iterator and collect chains): per-credential inputs without an allow list, "
             "empty / undecodable / unlisted credential keys are not decided",
             "select_salts (HashMap::into_iter().find with a tuple pattern): per-credential precedence on the authenticator side",
